@@ -7,6 +7,7 @@ pub mod c03;
 pub mod c04;
 pub mod c05;
 pub mod c06;
+pub mod c07;
 pub mod c09;
 pub mod c17;
 pub mod c18;
@@ -21,6 +22,7 @@ pub fn lookup(id: &str) -> Option<&'static dyn Property> {
         "C04" => &c04::C04,
         "C05" => &c05::C05,
         "C06" => &c06::C06,
+        "C07" => &c07::C07,
         "C09" => &c09::C09,
         "C17" => &c17::C17,
         "C18" => &c18::C18,
